@@ -273,6 +273,8 @@ type outcome struct {
 	panicS  string
 	ekind   string // "", card, unsupported, other, panic
 	negZero bool
+	exceptEmptyStr bool
+	nullInEmpty    bool
 }
 
 func engineErrKind(err error, panicS string) string {
@@ -297,6 +299,8 @@ func evaluate(cs *Case) *outcome {
 	in := &interp{tables: cs.Tables}
 	o.refRows, o.refErr = in.query(cs.Q, nil)
 	o.negZero = in.negZero
+	o.exceptEmptyStr = in.exceptEmptyStr
+	o.nullInEmpty = in.nullInEmpty
 	e := eng.New("db")
 	s := e.Session()
 	s.MustExec(setupSQL(cs)...)
@@ -463,7 +467,12 @@ func run(c *lib.Ctx, cs *Case) {
 	if so.err != nil {
 		small.Engine = []string{"error: " + so.err.Error()}
 	}
-	sig := v + ":" + classify(small, so)
+	cls := classify(small, so)
+	sig := v + ":" + cls
+	if v == "spurious-cardinality-error" && !strings.Contains(cls, "+") && cls != "" && isRootCause(cls) {
+		// the same root cause surfacing as an error because the mis-evaluated filter lets a row through
+		sig = "wrong-rows:" + cls
+	}
 	if v == "number-returned-as-text" {
 		sig = "wrong-rows:set-operation-returns-numbers-as-text"
 		if !hasSetOp(small) {
@@ -472,6 +481,15 @@ func run(c *lib.Ctx, cs *Case) {
 	}
 	what := fmt.Sprintf("%s: engine returns %v, the SQL definition gives %v for %s  after %s", v, small.Engine, small.Ref, small.SQL, strings.Join(small.Setup, "; "))
 	c.PredFail(id, sig, what, map[string]interface{}{"shrunk": small, "original": cs})
+}
+
+func isRootCause(name string) bool {
+	for _, t := range triggerOrder {
+		if t == name {
+			return true
+		}
+	}
+	return name == "decimal-negative-zero" || name == "except-drops-empty-string" || name == "null-in-empty-correlated-subquery"
 }
 
 func hasSetOp(cs *Case) bool {
@@ -667,10 +685,15 @@ func classify(cs *Case, o *outcome) string {
 			return t == "having-references-group-by-expression" || t == "having-aggregate-over-join"
 		case strings.HasPrefix(kind, "engine-error[failed-to-replan-join"):
 			return t == "anti-join-over-empty-join" || t == "semi-and-anti-join-in-one-filter"
+		case strings.HasPrefix(kind, "engine-error[of-range-value"):
+			return t == "decimal-literal-compared-with-product"
 		case strings.HasPrefix(kind, "engine-error[unable-to-sort"):
 			return t == "distinct-order-by-position"
-		case kind == "wrong-rows":
+		case kind == "wrong-rows", kind == "spurious-cardinality-error":
 			return !strings.HasPrefix(t, "having-") && !strings.Contains(t, "anti-join")
+		case kind == "panic", strings.HasPrefix(kind, "engine-error[unable-to-find-field"):
+			return t == "null-literal-set-operation-column-in-scalar-subquery" ||
+				(t == "in-subquery-over-outer-join-with-false-condition" && kind != "panic")
 		}
 		return false
 	}
@@ -681,6 +704,12 @@ func classify(cs *Case, o *outcome) string {
 	}
 	if o.negZero {
 		return "decimal-negative-zero"
+	}
+	if o.nullInEmpty && o.verdict(cs.Ordered) == "wrong-rows" {
+		return "null-in-empty-correlated-subquery"
+	}
+	if o.exceptEmptyStr && o.verdict(cs.Ordered) == "wrong-rows" {
+		return "except-drops-empty-string"
 	}
 	f := features(cs)
 	for _, t := range cs.Tables {
